@@ -938,7 +938,7 @@ theorem compiled_dictionary_analyses (v : Variant) (x : Ext) (inp : Input) (limi
         (∀ chars, Total.Reaches lv cfg orig chars → chars.length ≤ 32767) →
         (∀ chars nodes, Total.Reaches lv cfg orig chars →
           Oov.buildLattice cfg.providers cfg.lex (cfg.mkBuf chars) = .ok nodes →
-          ∀ e, (nodes.map Total.toVit).countP (fun n => n.e == e) ≤ 65535) →
+          ∀ e, (nodes.map Total.toVit).countP (fun n => n.e == e) ≤ 4294967295) →
         (∀ path, Total.NoPanic (cfg.rewrite path)) →
         (∀ (nb : Nat) path path', (∀ q ∈ path, q.eb ≤ nb) → cfg.rewrite path = .ok path' → ∀ p ∈ path', p.1.eb ≤ nb) →
         Total.NoPanic (Total.tokenize .d6fix lv cfg orig) := by
